@@ -60,6 +60,18 @@ class CollectionSummaryCache:
         """
         self._cache.update(summaries)
 
+    def discard(self, keys: Iterable[Any]) -> None:
+        """Remove records from the cache, so that they are fetched again the
+        next time they are needed.
+
+        Parameters
+        ----------
+        keys : `~collections.abc.Iterable` [`Any`]
+            Sequence of collection keys.
+        """
+        for key in keys:
+            self._cache.pop(key, None)
+
     def find_summaries(self, keys: Iterable[Any]) -> tuple[dict[Any, CollectionSummary], set[Any]]:
         """Return summary records given a set of keys.
 
